@@ -233,6 +233,25 @@ def path_obligations():
     return list(agg.values())
 
 
+def _copyto_pairs(st, cps):
+    """(destination, source) pairs of the np.copyto calls, written out one by one or as ONE call in a loop over
+    enumerate((w0, w1, ...)) / zip((w0, w1, ...), best_weights) -- the same copies in the same order"""
+    if len(cps) == 1 and cps[0][5]:
+        lid = cps[0][5][-1]
+        ent = [e for e in st.events if e[0] == "loop-enter" and e[1] == lid]
+        it = ent[0][2] if ent else None
+        if isinstance(it, tuple) and it[:1] == ("callres",) and len(it[3]) >= 1:
+            elem = ("iter", it, lid[0])
+            dst, src = cps[0][3][:2]
+            if it[2] == "enumerate" and it[3][0][0] in ("tuple", "list") and dst == ("item", elem, fx.C(1)) \
+                    and src[0] == "item" and src[2] == ("item", elem, fx.C(0)):
+                return [(w, ("item", src[1], fx.C(i))) for i, w in enumerate(it[3][0][1])]
+            if it[2] == "zip" and len(it[3]) == 2 and it[3][0][0] in ("tuple", "list") and dst == ("item", elem, fx.C(0)) \
+                    and src == ("item", elem, fx.C(1)):
+                return [(w, ("item", it[3][1], fx.C(i))) for i, w in enumerate(it[3][0][1])]
+    return [e[3] for e in cps]
+
+
 def epoch_counter_obligation():
     """i += 1 on every path of the epoch body (variant max_iter - i), by a dedicated walk of the inner loop."""
     import ast
@@ -246,7 +265,9 @@ def epoch_counter_obligation():
         last = body[-1]
         cmps = [c for c in ast.walk(inner[0].test) if isinstance(c, ast.Compare) and isinstance(c.left, ast.Name) and "max_iter" in ast.unparse(c)]
         ctr = cmps[0].left.id if cmps else None          # the epoch counter: the name compared with clf.max_iter in the guard
-        ok = (ctr is not None and isinstance(last, ast.AugAssign) and ast.unparse(last) == f"{ctr} += 1"
+        # `i += 1`, `i = i + 1` and `i = 1 + i` are the same statement
+        incr = ctr is not None and ast.unparse(last).replace(" ", "") in (f"{ctr}+=1", f"{ctr}={ctr}+1", f"{ctr}=1+{ctr}")
+        ok = (ctr is not None and isinstance(last, (ast.AugAssign, ast.Assign)) and incr
               and not any(isinstance(n, (ast.Continue, ast.Break)) for n in ast.walk(inner[0]))
               and sum(1 for n in ast.walk(inner[0]) if isinstance(n, (ast.Assign, ast.AugAssign)) and ctr in
                       [getattr(t, "id", None) for t in (n.targets if isinstance(n, ast.Assign) else [n.target])]) == 1)
@@ -343,11 +364,12 @@ def wrapper_obligations():
             if restore and dyn is False:
                 wantc = [(("attr", SELF, a), ("item", bw, fx.C(i))) for i, a in enumerate(order)]
                 ob("restore_best_weights on a non-dynamic model: np.copyto(weight_k, best_weights[k]) for every weight, in order",
-                   [e[3] for e in cps] == wantc, {"copyto": [[fx.show(x) for x in e[3]] for e in cps]})
+                   _copyto_pairs(st, cps) == wantc, {"copyto": [[fx.show(x) for x in e[3]] for e in cps]})
             else:
                 ob("no weights are overwritten when restore is off or the model is dynamic", not cps)
             ret = st.ret
-            ok_r = st.ended == "return" and ret[0] == "tuple" and list(ret[1]) == [("item", res, fx.C(i)) for i in range(5)]
+            # the five results of _path, re-packed or handed over as the very tuple _path returned
+            ok_r = st.ended == "return" and (ret == res or (ret[0] == "tuple" and list(ret[1]) == [("item", res, fx.C(i)) for i in range(5)]))
             ob("returns the tuple produced by _path", ok_r, {"ret": fx.show(ret)[:200]})
         obs.extend(agg.values())
     return obs
